@@ -1,9 +1,11 @@
 #!/bin/sh
-# runs every check of one tier: tools/run_all.sh [quick|thorough]
+# runs every check of one tier: tools/run_all.sh [quick|thorough] [property ids in the order to run them]
 tier=${1:-quick}
+[ $# -gt 0 ] && shift
+props=${*:-C01 C02 C03 C04 C05 C06 C07 C08 C09 C10 C11 C12 C13 C14 C15 C16}
 cd "$(dirname "$0")/.."
 first=1
-for p in C01 C02 C03 C04 C05 C06 C07 C08 C09 C10 C11 C12 C13 C14 C15 C16; do
+for p in $props; do
   if [ $first = 1 ]; then nb=""; first=0; else nb="--no-build"; fi
   ./check $p --tier $tier $nb 2>&1 | grep -E "^(VIOLATION|MACHINERY|  key|C[0-9][0-9] )" | cut -c1-400
 done
